@@ -21,6 +21,15 @@ database.  Spec: the ordered map `specAll [] ops` of the history and its Merkle 
                       clause needs collision-freeness on `HashedIn` only, stated as an explicit
                       collision clause in `C06_reopen_collision`.
 * `C06_threshold`     `NewValue` hashes a value iff V1 and longer than 32 bytes.
+* `C06_nibbles_<op>_refines` (`Lib/C06NibblesLemmas.lean`): the byte-level model of
+                      `pkg/trie/triedb/nibbles` + `combineKey` (`Lib/C06Nibbles.lean`: packed data and
+                      nibble offset, as in the Go code) refines the plain nibble lists the trie model
+                      works on: `Len`, `At`, `Mid`, `Advance`, `NodeKey`, `Left`/`JoinedBytes` (= the
+                      `prefixBytes` of the model's database keys), `CommonPrefix` (both code paths),
+                      `StartsWith`, `Equal`, `Right` (= `packNibs` of the spec encoding), `ShiftKey`,
+                      `NodeKeyRange`, `combineKey`, and `NibbleSlice.Push` / `Prefix` / `DropLasts` /
+                      `AppendPartial` / `AppendOptionalSliceAndNibble`; `C06_nibbles_prefix_injective`:
+                      the key prefix determines the path up to the zero padding of an odd path.
 Proof: the in-memory handle tree always stands for THE canonical trie of the current map
 (`tInsert` = the in-memory trie's `insert`, `tRemove`, C01's `Canon`/`canon_unique`/`Rep`), relative
 to the trie `T0` committed last (`abs`, `Ok`); `commit` produces the spec encoding (`encNew_ok`);
@@ -29,6 +38,7 @@ distinct positions have distinct rows (`rows_inj`), so the database holds the ne
 -/
 import Gossamer.Lib.TrieDBReopen
 import Gossamer.Lib.TrieDBMulti
+import Gossamer.Lib.C06NibblesLemmas
 set_option linter.unusedSectionVars false
 set_option linter.unusedSimpArgs false
 namespace Gossamer.C06
